@@ -504,7 +504,7 @@ impl Prop for C12 {
     type Case = CtorCase;
     const ID: &'static str = "C12";
     const PART: &'static str = "constructors";
-    const RULE: &'static str = "lattice (exhaustive): bound pairs (lo,hi) in V x V, V = {-inf,-1e308,-4,-pi-ulp,-pi,-pi+ulp,-1,-0,0,1e-300,1,pi-ulp,pi,pi+ulp,4,1e308,inf,NaN}, for SO2, per dimension for RV (dimension 0-3 x bounds length 0-4 x None) and in each slot of SE2/SE3; SO3 radius over V with unit / negated / NaN centres; SO2State/SE2State::new and SO3State::normalise over special magnitudes (0, 1e-300..1e300, multiples of pi +-ulp; zero, 1e-200, 1e-10, 1e-9+-, unit, 1e150, 1e200, mixed quaternions); plus random fill-in. Oracle: reference well-formedness predicate in both directions (ill-formed => documented error with the right payload; well-formed and in range => accepted, stored verbatim), and every accepted space is exercised (sample, enforce, satisfies, resolution) under catch_unwind. Non-trivial = an argument tuple with a non-finite, inverted, equal, out-of-range or wrong-length component (or an angle outside [-pi,pi) / a non-unit quaternion).";
+    const RULE: &'static str = "lattice (exhaustive): bound pairs (lo,hi) in V x V, V = {-inf,-1e308,-4,-pi-ulp,-pi,-pi+ulp,-1,-0,0,1e-300,1,pi-ulp,pi,pi+ulp,4,1e308,inf,NaN}, for SO2, per dimension for RV (dimension 0-3 x bounds length 0-4 x None) and in each slot of SE2/SE3; SO3 radius over V and {-1e-7, -5e-8, -1e-300, 5e-8} with unit / negated / NaN centres; SO2State/SE2State::new and SO3State::normalise over special magnitudes (0, 1e-300..1e300, multiples of pi +-ulp; zero, 1e-200, 1e-10, 1e-9+-, unit, 1e150, 1e200, mixed quaternions); plus random fill-in. Oracle: reference well-formedness predicate in both directions (ill-formed => documented error with the right payload; well-formed and in range => accepted, stored verbatim), and every accepted space is exercised (sample, enforce, satisfies, resolution) under catch_unwind. Non-trivial = an argument tuple with a non-finite, inverted, equal, out-of-range or wrong-length component (or an angle outside [-pi,pi) / a non-unit quaternion).";
     fn random_cases(tier: Tier) -> usize {
         tier.pick(2_000_000, 8_000_000)
     }
@@ -543,9 +543,10 @@ impl Prop for C12 {
             },
             2 => {
                 let c = gen_unit_quat(ch);
-                let a = match ch.below(3) {
+                let a = match ch.below(4) {
                     0 => ch.pick(&v),
                     1 => ch.range(-1.0, 4.0),
+                    2 => -ch.log_range(1e-12, 1e-3),
                     _ => ch.range(0.05, PI),
                 };
                 let p = gen_unit_quat(ch);
@@ -668,8 +669,11 @@ impl Prop for C12 {
             [0.6, 0.0, 0.8, 0.0],
             [f64::NAN, 0.0, 0.0, 1.0],
         ];
+        // (radii just below zero as well: a tolerance applied to the wrong test lets them in)
+        let mut radii = v.clone();
+        radii.extend([-5e-8, -1e-7, -1e-300, 5e-8]);
         for c in &centres {
-            for a in &v {
+            for a in &radii {
                 emit(CtorCase::SO3 {
                     bounds: Some(([XF(c[0]), XF(c[1]), XF(c[2]), XF(c[3])], XF(*a))),
                     probe: [0.0, 1.0, 0.0, 0.0],
